@@ -45,6 +45,8 @@ func Run(k *report.Check) {
 	}
 	nf := nparams{depth: k.Pick(4, 5), n: 2, groups: 4, redeployedTwice: true}
 	k.ExploreProc(fmt.Sprintf("neighbours/redeployed-twice,n=%d,d=%d", nf.n, nf.depth), mc.Config{Deadline: k.Within(0.35)}, nf, neighbors)
+	npc := nparams{depth: k.Pick(3, 4), n: 2, groups: 4, pendingCheckpoint: true}
+	k.ExploreProc(fmt.Sprintf("neighbours/pending-job-checkpoint,n=%d,d=2+%d", npc.n, npc.depth), mc.Config{Deadline: k.Within(0.35)}, npc, neighbors)
 	np := nparams{depth: k.Pick(4, 6), n: 2, groups: 4}
 	k.ExploreProc(fmt.Sprintf("neighbours/n=%d,d=%d", np.n, np.depth), mc.Config{}, np, neighbors)
 	if k.Thorough() {
